@@ -17,3 +17,25 @@ check('C14', 'model_checking',
       'DESIGN.md §3 C14')
 for k in CHECKS:
     NOT_YET.pop(k, None)
+
+check('C07', 'exploration',
+      'complete enumeration of a parameter/point grid against closed forms; product quadrature',
+      'Full product of family x D (1..8 / 2..6) x covariance condition (1..1e8) / concentration (1e-6..500) / '
+      'Bingham spectra x evaluation points x parameter stacks; every value compared with an independent closed form '
+      '(loops, slogdet/solve, mpmath besseli/hyp1f1, 60-digit Bingham normaliser); integrates-to-one by product '
+      'quadrature on the complex unit sphere (D=2), S^1, S^2, R^1, R^2.',
+      'Grid, not all reals; Bingham spectra whose float64 normaliser has a cancellation factor > 1e6 are checked for '
+      'finiteness only; quadrature for D<=3 only.',
+      'DESIGN.md §3 C07')
+check('C01', 'exploration',
+      'deviation-bounded exhaustive exploration of the configuration space + exhaustive small data alphabet',
+      'Every configuration of the seven mixture models that departs from the defaults in <= 2 (quick) / 3 (thorough) '
+      'options, the full product model x tying x data kind x start, and all data sets over the Gaussian-integer '
+      'alphabet (D=2, N<=3) are fitted with the real trainers; every E-step result (iteration hook), predict and '
+      'fit_predict output is checked for shape/finite/[0,1]/sum-to-one/mask zeros and compared with an independent '
+      'Bayes rule built from the public component log_pdf and the stored weights; initializers for all K<=6, N<=12.',
+      'An exception is accepted where the property allows it (degenerate data kinds, too few frames, K=1, a class '
+      'without mass); on regular data an exception is reported. Single precision: dynamic range 1e-12..1e12.',
+      'DESIGN.md §3 C01')
+for k in CHECKS:
+    NOT_YET.pop(k, None)
